@@ -4,6 +4,7 @@ import XalanModel.C19.XList
 import XalanModel.C19.Arena
 import XalanModel.C19.XDeque
 import XalanModel.C19.XBVec
+import XalanModel.C19.RArena
 import Driver.Util
 /-
 xm_c19: (a) replays container operation logs on the allocation-explicit models (same request lines as
@@ -31,6 +32,8 @@ structure St where
   skipPending : Bool := false
   deque : XDeque := { bs := 1 }
   bvec : XBVec := {}
+  ra : RArena := { bs := 1 }
+  raObjs : List (Option (Nat × Nat)) := []     -- objects in creation order: (block object id, slot); none = destroyed
   popNull : Bool := false
   dead : Bool := false
   trace : Option Ledger := none        -- trace mode: ledger so far (none = trace rejected)
@@ -117,6 +120,34 @@ def bvecStep (s : St) : List String → St × String
     ({ s with bvec := {}, l := l1 }, tail l1 .ok "destroyed")
   | _ => (s, "bad")
 
+def showRA (r : RArena) : String :=
+  String.join (r.nodes.map fun nb =>
+    "[" ++ String.join (nb.2.slots.map fun sl => match sl with | some (v, _) => s!"o{v} " | none => "- ") ++ "] ")
+
+def raStep (s : St) : List String → St × String
+  | ["new", n] => match n.toNat? with
+    | some n => ({ s with ra := { bs := n }, raObjs := [] }, tail s.l .ok (showRA { bs := n }))
+    | none => (s, "bad")
+  | ["create", x] => match x.toInt? with
+    | some x =>
+      let r := s.ra.create x s.l
+      let objs := match r.2.1 with | some p => s.raObjs ++ [some p] | none => s.raObjs
+      ({ s with ra := r.2.2.1, l := r.2.2.2, raObjs := objs, dead := r.1 == .ub }, tail r.2.2.2 r.1 (showRA r.2.2.1))
+    | none => (s, "bad")
+  | ["destroy", j] => match j.toNat? with
+    | some j =>
+      (match s.raObjs[j]? with
+       | some (some (blk, slot)) =>
+         let r := s.ra.destroyObject false blk slot s.l
+         ({ s with ra := r.2.1, l := r.2.2, raObjs := s.raObjs.set j none, dead := r.1 == .ub }, tail r.2.2 r.1 (showRA r.2.1))
+       | _ => ({ s with dead := true }, tail s.l .ub (showRA s.ra)))
+    | none => (s, "bad")
+  | ["free"] =>
+    let r := s.ra.destroy s.l
+    if r.1 == .ub then ({ s with dead := true }, tail s.l .ub (showRA s.ra))
+    else ({ s with ra := { bs := 1 }, raObjs := [], l := r.2 }, tail r.2 .ok "destroyed")
+  | _ => (s, "bad")
+
 def showDeque (d : XDeque) : String :=
   s!"idx={d.idx.items.length} free={d.freeV.items.length} :" ++ String.join (d.elems.map fun x => s!" {x}")
 
@@ -189,6 +220,7 @@ def step (s : St) (ws : List String) : St × String :=
     | "a" :: rest => arenaStep s rest
     | "d" :: rest => dequeStep s rest
     | "bv" :: rest => bvecStep s rest
+    | "ra" :: rest => raStep s rest
     | ["v", "destroy"] =>
       -- ~XalanTransformer: XalanDestroy every object the vector holds, then ~XalanVector
       let held := s.created.filter fun c => s.vec.items.contains (Int.ofNat c.1)
